@@ -35,27 +35,33 @@ class CollectionTooLargeException(Exception):
     pass
 
 
+class WrappedException(Exception):
+    """what a host meets when a StopIteration is raised inside a function call while IT consumes a lazy result
+    (yaql.convertOutputData off): yaql wraps it so that it does not end the generators on the way, and only
+    evaluate() unwraps it"""
+
+
 class Opts:
     """the options of the engine a statement belongs to, as far as the collection functions and the finaliser look at
     them (Opts of lean/Yaql/Model/SeqRun.lean): yaql.iterableDicts, convertTuplesToLists, convertSetsToLists,
     convertInputData, limitIterators (None = never reached)"""
-    __slots__ = ('id', 'tl', 'sl', 'ci', 'lim')
+    __slots__ = ('id', 'tl', 'sl', 'ci', 'lim', 'co')
 
-    def __init__(self, id=False, tl=True, sl=True, ci=True, lim=None):
-        self.id, self.tl, self.sl, self.ci, self.lim = id, tl, sl, ci, lim
+    def __init__(self, id=False, tl=True, sl=True, ci=True, lim=None, co=True):
+        self.id, self.tl, self.sl, self.ci, self.lim, self.co = id, tl, sl, ci, lim, co
 
     def json(self):
-        return {'id': self.id, 'tl': self.tl, 'sl': self.sl, 'ci': self.ci, 'lim': self.lim}
+        return {'id': self.id, 'tl': self.tl, 'sl': self.sl, 'ci': self.ci, 'lim': self.lim, 'co': self.co}
 
     @staticmethod
     def of_json(j):
-        return Opts(j['id'], j['tl'], j['sl'], j['ci'], j['lim'])
+        return Opts(j['id'], j['tl'], j['sl'], j['ci'], j['lim'], j.get('co', True))
 
     def key(self):
-        return (self.id, self.tl, self.sl, self.ci, self.lim)
+        return (self.id, self.tl, self.sl, self.ci, self.lim, self.co)
 
     def __repr__(self):
-        return 'Opts(iterableDicts=%s, tuplesToLists=%s, setsToLists=%s, convertInput=%s, limit=%s)' % self.key()
+        return 'Opts(iterableDicts=%s, tuplesToLists=%s, setsToLists=%s, convertInput=%s, limit=%s, convertOutput=%s)' % self.key()
 
 
 CUR = Opts()         # the options of the evaluation in progress (set by run_ref / run_obs)
@@ -63,6 +69,10 @@ CUR = Opts()         # the options of the evaluation in progress (set by run_ref
 
 class FSet(list):
     """a finalised set (the members in some order)"""
+
+
+class FIter(list):
+    """what the host gets out of a lazy result when it consumes it (yaql.convertOutputData off)"""
 
 
 def limit_sized(xs):
@@ -171,7 +181,7 @@ def has_lazy(v):
     if isinstance(v, (tuple, list)):
         return any(has_lazy(x) for x in v)
     if isinstance(v, dict):
-        return any(has_lazy(x) for x in v.values())
+        return any(has_lazy(x) for x in v.values()) or any(has_lazy(k) for k in v)      # (a generator is a legal key)
     return False
 
 
@@ -684,7 +694,7 @@ class Ref:
     def sequenceTake(self, o, a):
         start = 0 if a.get('m') is None else a['m']
         step = 1 if a.get('k') is None else a['k']
-        return itertools.islice(itertools.count(start, step), a['n'])
+        return itertools.islice(limit_lazy(itertools.count(start, step)), a['n'])      # (take's receiver passes the limiter)
 
     def orderBy(self, o, a):
         return Ordering(it(o), [(lam(a['l']), True)])
@@ -765,12 +775,12 @@ class Ref:
         if times is None or times < 0:
             if n is None:
                 raise OOD()
-            return itertools.islice(itertools.repeat(o), n)
+            return itertools.islice(limit_lazy(itertools.repeat(o)), n)
         r = itertools.repeat(o, times)
-        return r if n is None else itertools.islice(r, n)
+        return r if n is None else itertools.islice(limit_lazy(r), n)
 
     def cycleTake(self, o, a):
-        return itertools.islice(itertools.cycle(it(o)), a['n'])
+        return itertools.islice(limit_lazy(itertools.cycle(it(o))), a['n'])
 
     def takeWhile(self, o, a):
         return itertools.takewhile(lam(a['l']), it(o))
@@ -974,7 +984,7 @@ class Ref:
                 # (what the producer returns passes the limiter)
                 kids = list(limit_lazy(kids) if is_iterator(kids) else limit_sized(kids))
                 queue = kids + queue if depth_first else queue + kids
-        return itertools.islice(gen(), a['n'])
+        return itertools.islice(limit_lazy(gen()), a['n'])
 
     # ---- collections.py
     def list(self, o, a):
@@ -1488,9 +1498,43 @@ def run_obs(data, ops, binder, obs, opts=None):
 
 def finalise_parts(parts):
     """a list literal of run-time objects (a tuple), finalised"""
+    if not CUR.co:
+        return tuple(raw_out(p) for p in parts)
     limit_sized(parts)
     r = [finalise(p) for p in parts]
     return r if CUR.tl else tuple(r)
+
+
+def raw_out(o, key=False):
+    try:
+        return _raw_out(o, key)
+    except Stop:
+        raise WrappedException()
+
+
+def _raw_out(o, key=False):
+    """yaql.convertOutputData off: evaluate() hands the run-time object out as it is - a tuple, a list, a frozen set (FSet;
+    so are the keys / items views), a dictionary, or something lazy, which the host consumes (FIter: what it gets; an
+    exception raised while it does is the outcome).  No limiter is put around the result."""
+    if isinstance(o, dict):
+        return (FD if key else dict)((_raw_out(k, True), _raw_out(v)) for k, v in o.items())
+    if isinstance(o, frozenset):
+        return FSet(_raw_out(x) for x in o)
+    if isinstance(o, View):
+        if o.kind == 'values':
+            return FIter(_raw_out(x) for x in o.elems())
+        return FSet(_raw_out(x) for x in o.elems())
+    if isinstance(o, tuple):
+        return tuple(_raw_out(x, key) for x in o)
+    if isinstance(o, list):
+        return [_raw_out(x) for x in o]
+    if isinstance(o, Memo):
+        return FIter(_raw_out(x) for x in iter(o))
+    if isinstance(o, Ordering):
+        return FIter(_raw_out(x) for x in sort_lazily(o))
+    if is_iterator(o):
+        return FIter(_raw_out(x) for x in o)
+    return o
 
 
 def out_hashable(f):
@@ -1506,6 +1550,8 @@ def finalise(o):
     (a mutable list is a list anyway), sets become lists with convertSetsToLists and sets otherwise (FSet marks one:
     its members must be hashable then), iterators become lists, a dict's value is converted before its key and the
     converted key must be hashable; every level passes the limiter first"""
+    if not CUR.co:
+        return raw_out(o)
     if isinstance(o, dict):
         limit_sized(o)
         r = {}
